@@ -59,6 +59,7 @@ pub fn one<M: Model, R: Conv<M::F>>(ctx: &Ctx<M, R>, rep: &mut Report, rng: &mut
     rep.class_if(k.is_zero(), "scalar: 0");
     rep.class_if(*k == &ctx.r - UInt::one(), "scalar: r-1");
     rep.class_if(cur.is_identity(p), "point: identity");
+    rep.class_if(limbs.len() > 1 && limbs.iter().rev().skip_while(|l| **l == 0).any(|l| *l == 0), "scalar: zero limb below a non-zero limb");
     let sig = |op: &str, kind: &str| format!("scalar_mul/{}/{}/{}", ctx.name, op, kind);
     let detail = |op: &str| json!({"curve": ctx.name, "path": op, "k": k.to_string(), "k_limbs": hex_limbs(&limbs), "n_limbs": limbs.len(), "P": ctx.show(p)});
     let mut opn = 0u64;
@@ -184,6 +185,11 @@ fn structural_scalars(r: &UInt, n_limbs: usize, rng: &mut Rng) -> Vec<(UInt, usi
     if (r << 1usize) < full {
         v.push(((r << 1usize) + UInt::from(3u8), 0));
     }
+    // zero limbs below a non-zero limb (2^64, 2^128, 5 + 7*2^128, ...): limb-wise shortcuts must not drop the top
+    for k in 1..n_limbs {
+        v.push((UInt::one() << (64 * k), 0));
+        v.push(((UInt::from(7u8) << (64 * k)) + UInt::from(if k > 1 { 5u8 } else { 0u8 }), 0));
+    }
     let bits = r.bits() as usize;
     for _ in 0..4 {
         let j = 1 + rng.next_u32() as usize % (64 * n_limbs - 1);
@@ -213,6 +219,11 @@ pub fn toy<M: Model>(meta: &'static cfgs::toy_curves::ToyMeta, shard: usize, sha
         for k in ks {
             let ez = (k as usize + i) % 3;
             one(&ctx, rep, rng, &UInt::from(k), ez, p, sub, true, extra);
+        }
+        // multi-limb integers with a zero low limb (2^64, 3*2^64, 2^128 + small)
+        for k in [UInt::one() << 64usize, UInt::from(3u8) << 64usize, (UInt::one() << 128usize) + UInt::from(i as u64 % 7)] {
+            rep.class("scalar: zero limb below a non-zero limb");
+            one(&ctx, rep, rng, &k, 0, p, sub, true, extra);
         }
         // large raw integers
         for _ in 0..2 {
@@ -303,7 +314,14 @@ pub fn glv<P: GLVConfig>(name: &str, rep: &mut Report, rng: &mut Rng, iters: usi
     }
     for (i, kv) in scalars.iter().enumerate() {
         let k = P::ScalarField::from(kv.clone());
-        let pa = if i % 3 == 0 { gen } else { (gen * P::ScalarField::rand(rng)).into_affine() };
+        let pa = if i % 5 == 4 {
+            rep.class("glv: identity point");
+            sw::Affine::<P>::identity()
+        } else if i % 3 == 0 {
+            gen
+        } else {
+            (gen * P::ScalarField::rand(rng)).into_affine()
+        };
         let p = ctx.decode_aff(&pa);
         let dg = digest(&(name, "glv", kv.to_string(), &p));
         let d = || json!({"curve": name, "k": kv.to_string(), "P": ctx.show(&p)});
@@ -337,7 +355,7 @@ pub fn glv<P: GLVConfig>(name: &str, rep: &mut Report, rng: &mut Rng, iters: usi
                 rep.violation(sig("glv_mul_affine", "value"), d());
             }
         }
-        if i < 12 {
+        if i < 12 || pa.infinity {
             if let Ok(lp) = ctx.cur.mul(&lam, &p) {
                 rep.eval(mix(dg, 4), true);
                 if ctx.decode_aff(&P::endomorphism_affine(&pa)) != lp || ctx.decode(&P::endomorphism(&pa.into_group())) != Ok(lp) {
@@ -415,6 +433,7 @@ pub fn items(args: &Args) -> Vec<Item> {
                 rep.require("glv: k1 negative");
                 rep.require("glv: k2 negative");
                 rep.require("glv: k2 = 0");
+                rep.require("glv: identity point");
                 glv::<$cfg>($name, rep, rng, giters)
             }));
         };
@@ -465,6 +484,7 @@ const REQUIRED: &[&str] = &[
     "scalar: more limbs than the scalar field",
     "scalar: 0",
     "scalar: r-1",
+    "scalar: zero limb below a non-zero limb",
     "point: identity",
     "wnaf: oversized table",
     "wnaf: undersized table -> None",
